@@ -359,7 +359,9 @@ func (d *diff) CompareDiff(ctx context.Context, dl Remote) (newIds, ourChangedId
 
 func (d *diff) compareResults(dctx *diffCtx, r Range, myRes, otherRes RangeResult) {
 	// both hash equals - do nothing
-	if bytes.Equal(myRes.Hash, otherRes.Hash) {
+	// an empty hash alone proves nothing: it stands for an empty range as well as
+	// for a range the side has no division for (the elements are sent instead)
+	if bytes.Equal(myRes.Hash, otherRes.Hash) && (len(myRes.Hash) != 0 || myRes.Count+otherRes.Count == 0) {
 		return
 	}
 
